@@ -1,7 +1,7 @@
 """C03 Optical depth composes additively over contributions and species."""
 import ast
 
-from sa.helpers import (mkflow, spec, code, one, calls, bind_call, param_env,
+from sa.helpers import (validated, unlicensed, the_return, mkflow, spec, code, one, calls, bind_call, param_env,
                         loop_matches, fmt, atom_of, unparse, unalloc, call_kw,
                         walk_no_nested)
 from sa.index import AnalysisError
@@ -37,7 +37,7 @@ def yields_component(fl, f, R, oid, site, multi_ok=True):
     if not ys:
         raise AnalysisError('no yield in %s' % site)
     why = []
-    single = len(ys) == 1 and not ys[0].loops and not [g for g in ys[0].guards if not g.early]
+    single = len(ys) == 1 and not ys[0].loops and not [g for g in ys[0].guards if not validated(g)]
     for y in ys:
         at = atom_of(fl, y.value)
         if at is None or at.head != 'tuple' or len(at.args) != 2:
@@ -56,7 +56,7 @@ def yields_component(fl, f, R, oid, site, multi_ok=True):
             why.append('component %s yielded without self.sigma_xsec = <that array>' %
                        unparse(y.value_ast))
         if not ok and len(ys) == 1 and not single:
-            why.append('the only component is yielded conditionally (%s)' % [g.text() for g in y.guards if not g.early])
+            why.append('the only component is yielded conditionally (%s)' % [g.text() for g in y.guards if not validated(g)])
     R.check(oid, 'DOM', site,
             'each yielded component is what contribute() will use (self.sigma_xsec assigned '
             'to it before the yield, or a single unconditional yield)',
@@ -629,7 +629,7 @@ def contrib_pipeline(ix, R, site, each):
                     al = [e for e in fl.of('assign') if fl.tab.equal(e.value, ap[0].recv_rf)]
                     if not al or al[0].loops != (outer,) or al[0].guards:
                         why.append('component list is not re-created for every contribution')
-        r = one(fl.of('return'), 'return')
+        r = the_return(fl)
         ra = atom_of(fl, r.value)
         if ra is None or ra.head != 'tuple' or len(ra.args) != 2 or not fl.tab.equal(ra.args[0], G) or r.guards:
             why.append('returns %s' % fmt(fl, r.value)[:80])
